@@ -346,7 +346,22 @@ type vHandler struct {
 	sawHeader  bool
 }
 
+// what net/http does when the handler reads the request body to its end: trailers that were not announced in a
+// Trailer header are stored in the request object the server created - its Trailer map if it has one, a new map
+// otherwise (net/http transfer.go, mergeSetHeader)
+var vServerReq *http.Request
+var vLateTrailers http.Header
+
 func (h *vHandler) ServeHTTP(w http.ResponseWriter, r *http.Request) {
+	if vLateTrailers != nil && vServerReq != nil {
+		if vServerReq.Trailer == nil {
+			vServerReq.Trailer = vLateTrailers
+		} else {
+			for k, v := range vLateTrailers {
+				vServerReq.Trailer[k] = v
+			}
+		}
+	}
 	h.calls++
 	h.gotTimeout, h.hasTimeout = timeoutFromContext(r.Context())
 	_, h.sawHeader = r.Header["Connect-Timeout-Ms"]
@@ -383,11 +398,22 @@ func H12c_q() {
 	if hasTimeout {
 		req.Header["Connect-Timeout-Ms"] = []string{"250"}
 	}
+	vServerReq, vLateTrailers = req, nil
 	if hasTrailers {
-		req.Trailer = http.Header{"X-T": []string{"v"}}
+		if vBool("announced") {
+			req.Trailer = http.Header{"X-T": []string{"v"}}
+		} else {
+			// HTTP/1.1 chunked body whose trailers were not announced: they turn up when the body is read
+			vLateTrailers = http.Header{"X-T": []string{"v"}}
+		}
 	}
 	vErrWrites = 0
-	mw(&vNullRW{hdr: http.Header{}}, req)
+	if vBool("viaRawResponder") {
+		// the way the reference server stacks its middleware: the raw responder sits in front
+		rawResponder(mw).ServeHTTP(&vNullRW{hdr: http.Header{}}, req)
+	} else {
+		mw(&vNullRW{hdr: http.Header{}}, req)
+	}
 	if !hasName {
 		vAssert(h.calls == 0 && vErrWrites == 1, "a request without a test name is rejected outright and the handler is not called")
 		return
